@@ -239,6 +239,7 @@ func runExports(sc escript, out *eout) {
 	vsched.WaitQuiescent()
 	// model from the wire
 	model := map[uint32]int{}
+	owner := map[uint32]uint32{} // export id -> question whose Return first carried its current occupant
 	retOf := map[uint32][]uint32{}
 	for _, m := range s.T.Wire {
 		if !m.Msg.IsValid() {
@@ -249,6 +250,9 @@ func runExports(sc escript, out *eout) {
 			ids := capsOfReturn(r)
 			retOf[r.AnswerId()] = ids
 			for _, id := range ids {
+				if model[id] == 0 {
+					owner[id] = r.AnswerId() // export ids are reused once free
+				}
 				model[id]++
 			}
 		}
@@ -299,7 +303,7 @@ func runExports(sc escript, out *eout) {
 		ids := retOf[uint32(st.q)]
 		held := !finished[st.q]
 		for _, id := range ids {
-			if model[id] > 0 {
+			if model[id] > 0 && owner[id] == uint32(st.q) {
 				held = true
 			}
 		}
